@@ -9,16 +9,47 @@ True - provided no packet is lost.  Messages longer than 24 bytes travel as fram
 on-air bytes and are reassembled transparently; with fragmentation off, messages up to 24 bytes
 behave the same.  Routing nodes forward such frames without handing them to their own application.
 
-Model: `NrfModel/Net/Node.lean`, `Net/Api.lean`.  Spec: `NrfModel/Spec/Delivery.lean` (`txPath`,
-`sendFrags`, `fragPlan`, `DeliveredOnce`), `Net/Frag.lean` (the pure fragment loop, tied to the
+Model: `NrfModel/Net/Node.lean`, `Net/Api.lean`.  Spec: `NrfModel/Spec/Delivery.lean` (`fragPlan`,
+`DeliveredOnce`, `callerFrame` — independent of the model; `txPath`, `sendFrags` are a re-bracketing of the
+model's own control flow, see that file's header), `Net/Frag.lean` (the pure fragment loop, tied to the
 reference encoder by C11), `Spec/Tree.lean` (C04).
+
+WHAT THE CLOSED-SYSTEM THEOREMS OF THIS FILE COVER, AND WHAT NOT (every `…_closed*` theorem, and its
+`L3Contracts`-conditional twin):
+* ONE schedule: the cooperative `runOthers` schedule of the test session — the other nodes run `update()`
+  to completion exactly at the caller's `send`/`read`; a nested `update()` that raises or runs out of fuel is
+  swallowed; after `write()` the node named in the theorem is polled next.  The property quantifies over
+  schedules; these theorems do not.  Hence all of them are partial results, whether or not the name ends in
+  `_partial`.
+* loss-free (`faults = []`), nobody has address `0o4444`, the destination's queue accepts the frame (room,
+  no frame with the same origin/id/type), all RX FIFOs empty at the start, no other message in flight.
+* NON-DUPLICATE condition instead of freshness (changed after review): the receiving radios need NOT be
+  fresh (`lastRx = none`); it is enough that the packet each of them accepted last does not carry the
+  bytes of this frame (`NotDupFrame`, NrfProofs/C05Closed.lean — the chip's duplicate filter compares PID,
+  address and data; different data suffices).  No theorem of this file still asks for `lastRx = none`.
+  Frames of different messages differ in origin, id (counts up per origin, wraps at 65536), type or payload.
+* third radios: the two-node theorems ask only that no third radio listens on the ADDRESS the packet goes to
+  (`hothers`; true in every `NetOk` network — `C05_neighbours_closed_partial`, `C05_neighbours_frag_closed_partial`),
+  no longer that third radios are deaf.
+* quiescence: the single-frame theorems also conclude that afterwards every RX FIFO is empty (no second copy
+  waiting); the fragment theorems (`C05_two_nodes_frag*`, `C05_neighbours_frag_closed_partial`) export the same
+  conjunct about the state after the receiver's final `update()`.
+* NOT covered by any theorem: schedules other than `runOthers`; packet loss; `send()` of the mesh API
+  (`RF24Mesh.send`); fragmented messages over more than one hop; system types 128..191 over ONE hop.
+  Covered: user types 0..127 over one hop (`C05_neighbours_closed_partial`), types 0..64 over any route
+  (`C05_route_closed_partial`), types 65..191 over ≥ 2 hops with the side conditions stated there
+  (`C05_route_ack_closed_partial`).
 
 * `C05_local_*`  one node against **any** environment (every fuel, world, arrival script, fault
                  list, behaviour of the other nodes): what one iteration of `_net_update()` does
                  with a frame for another node / for this node / a PING; what `write()` hands to
-                 the radio for the first hop.
+                 the radio for the first hop.  `_forward`, `_deliver`, `_ping`, `_write`, `_loopback`, `_tx` are
+                 UNFOLDING lemmas (one symbolic-execution step of the model under its path condition);
+                 the content is in `_forward_queue`, `_enqueue`, `C05_frag_reassembly`, and conjunct 2 of `_tx`.
 * `C05_two_nodes*` closed system (`runOthers`), loss-free, under the driver contracts `L3Contracts`
                  (`NrfProofs/C05Link.lean`): a single-frame message between two neighbours.
+* `C05_neighbours_closed_partial`, `C05_neighbours_frag_closed_partial` the same in a `NetOk` network of any
+                 number of running (listening) nodes.
 * `C05_route_partial` see the end of the file.
 * `C05_*_closed*`  the same theorems with `L3Contracts` discharged (`l3contracts`, `NrfProofs/L3Discharge.lean`).
 * `C05_two_nodes_frag*` a FRAGMENTED message (25..144 bytes) between two neighbours, end to end in the
@@ -176,8 +207,15 @@ theorem C05_local_write (dst ty : Int) (msg : Bytes) (s : NetState)
 
 example : maskInt 5 0xFFF = 5 ∧ maskInt (-1) 0xFF = 255 := by decide
 
-/-- **What goes on the air for a hop.**  `_write_to_pipe(node, pipe, multicast)` for a hop other than
-    this node itself is `txPath` (`Spec/Delivery.lean`): auto-ack on pipe 0 iff unicast, stop
+/-- **What goes on the air for a hop** — an UNFOLDING lemma, not a check against an independent
+    specification: `txPath` (`Spec/Delivery.lean`) is a re-bracketing of the model's own `nodeWriteToPipe`
+    (it calls the same model functions `rfSend`, `fragRetry`, `txStandbyFor`, `Rf24.setListen`, …), so the
+    first conjunct says "model = model re-bracketed"; its real content is that the fragment LOOP of the model
+    executes exactly the plan `fragPlan` (conjunct 2, which is independent of the model: `fragPlan` is written
+    from the docs and tied to the reference encoder by C11).  The phrases below about auto-ack and re-sending
+    are a reading of `txPath`'s text, not separately checked requirements.
+    `_write_to_pipe(node, pipe, multicast)` for a hop other than
+    this node itself is `txPath`: auto-ack on pipe 0 iff unicast, stop
     listening, transmit to `_pipe_address(node, pipe)`; a message of at most 24 bytes as the single
     payload `frame_buf.pack()`, re-sent (not re-written) for at most `tx_timeout` ms; a longer one by
     carrying out its fragment plan, whose payloads are exactly the frames of the pure fragment loop
@@ -212,7 +250,7 @@ theorem C05_local_loopback (f tp : Nat) (s : NetState) :
 
     The closed-system interleaving — between two `send()`s of the fragment loop the receiver's `update()`
     (run at the sender's scheduling points) drains its RX FIFO, and the radio's duplicate filter never
-    hits on consecutive fragments (their bytes differ) — is `C05_two_nodes_frag` / `C05_two_nodes_frag_closed`
+    hits on consecutive fragments (their bytes differ) — is `C05_two_nodes_frag` / `C05_two_nodes_frag_closed_partial`
     at the end of this file (two neighbours, end to end). -/
 theorem C05_frag_reassembly (a b i msgT : Nat) (msg : Bytes) (h : Header) (q : NetQueue) (f0 : Frame)
     (ha : a < 4096) (hb : b < 4096) (hi : i < 65536) (hm : msgT ≤ MAX_USR_DEF_MSG_TYPE)
@@ -245,8 +283,11 @@ example : (fragPlan (List.replicate 30 7) 2 5 2 ⟨1, 2, 3, .int 5, 0⟩).map (f
 /-- **`write()` between two neighbours** (parent and child, either direction), closed system
     (`runOthers`), loss-free, under the driver contracts.  Node `a` (tree node `x`, the caller,
     listening) writes a message of at most 24 bytes of any type for its neighbour `y`, which is node
-    `b`, listening on its tree addresses with an empty RX FIFO; nobody else has data waiting, no third
-    radio is listening, the fault script is empty.  Then `write()` returns `True` and the caller's
+    `b`, listening on its tree addresses with an empty RX FIFO; nobody else has data waiting; no third
+    radio listens on the address of `b`'s pipe the packet goes to (`hothers` — in a `NetOk` tree network
+    with any number of listening nodes this holds by `NetOk.hothers`, see `C05_neighbours_closed_partial`);
+    the packet `b`'s radio accepted last, if any, does not carry this frame's bytes (`NotDupFrame`; `b` need
+    not be fresh); the fault script is empty.  Then `write()` returns `True` and the caller's
     frame; in the resulting state (`prepared … .afterRf D`) the only changes are: two header ids
     consumed, `frame_buf` of `a`, the radio object and radio of `a` — listening again as before —
     and the radio of `b`, whose RX FIFO holds exactly the packed frame, once, on the pipe C04 names
@@ -262,9 +303,10 @@ theorem C05_two_nodes_write (hc : L3Contracts) (cfg : AddrCfg) (hcfg : CfgOk cfg
     (haddr_a : (s.nodeAt a).a = nodeSpec x) (hcfg_a : (s.nodeAt a).cfg = cfg)
     (hmax : msg.length ≤ (s.nodeAt a).maxMessageLength) (hlen : msg.length ≤ MAX_FRAG_SIZE)
     (hNb : NodeRadio L Pb true true 0x3E (s.nodeAt b).rf (s.radioAt b))
-    (hPb : beginPipes cfg (val y) = .ok Pb) (hlast : (s.radioAt b).lastRx = none)
+    (hPb : beginPipes cfg (val y) = .ok Pb) (hlast : NotDupFrame (s.radioAt b) (wireCopy (callerFrame x y s.nextId ty msg)))
     (hquiet : ∀ i, i < s.nodes.length → i ≠ a → (s.radioAt i).rxFifo = [])
-    (hothers : ∀ r k, r ≠ s.ridAt a → r ≠ s.ridAt b → (s.w.radio r).listensTo k = none)
+    (hothers : ∀ r A buf pid, r ≠ s.ridAt a → r ≠ s.ridAt b → Pb[hopPipe x y]? = some A →
+      (s.w.radio r).listensTo (unicastPacket L A buf pid) = none)
     (hfaults : s.w.faults = []) :
     ∃ (D : DrvState) (pk A : Bytes) (pid : Nat),
       (wireCopy (callerFrame x y s.nextId ty msg)).pack = .ok pk ∧
@@ -291,7 +333,7 @@ theorem C05_two_nodes_write (hc : L3Contracts) (cfg : AddrCfg) (hcfg : CfgOk cfg
     unfold callerFrame
     rw [hnode, haddr_a]; rfl
   rw [hcf] at hw
-  generalize hcdef : callerFrame x y s.nextId ty msg = c at hw ⊢
+  generalize hcdef : callerFrame x y s.nextId ty msg = c at hw hlast ⊢
   have hct : c.header.msgType = .int (maskInt ty 0xFF) := by rw [← hcdef]; rfl
   have hcm : c.message = msg := by rw [← hcdef]; rfl
   -- the prepared state
@@ -359,11 +401,11 @@ theorem C05_two_nodes_write (hc : L3Contracts) (cfg : AddrCfg) (hcfg : CfgOk cfg
       exact hrid i (by rw [← hs'l]; exact hi) (by rw [← hs'c]; exact hic))
     (by rw [hs'at b (fun h => hab h.symm), hs'rad]; exact hNb)
     (by rw [hs'n]; show pipeAddress s.node.cfg _ _ = _; rw [hnode, hcfg_a]; exact hA1)
-    hA2 hp1 hp5 hA3 (by rw [hs'rad]; exact hlast)
+    hA2 hp1 hp5 hA3 (by rw [hs'rad]; exact hlast.notDup hpk)
     (by
       intro i pid hia hib
       rw [hs'w]
-      exact hothers i _ (by rw [← hs'rid, ← hs'c]; exact hia) (by rw [← hs'rid]; exact hib))
+      exact hothers i A pk pid (by rw [← hs'rid, ← hs'c]; exact hia) (by rw [← hs'rid]; exact hib) hA2)
     (by rw [hs'w]; exact hfaults)
     (by rw [hs'n]; show (wireCopy c).message.length ≤ _; simp only [wireCopy]; rw [hcm]; exact hlen)
     (by rw [hs'n]; exact hpk)
@@ -392,7 +434,9 @@ theorem C05_two_nodes_write (hc : L3Contracts) (cfg : AddrCfg) (hcfg : CfgOk cfg
     returns `True`; after it returned, the next `update()` of `b` (entered as the test session does,
     `runAs`) returns the message type, and between the initial and the final state **the queue of `b`
     has gained exactly one frame — origin `x`, the type, the bytes — and every other node's queue is
-    unchanged** (`DeliveredOnce`). -/
+    unchanged** (`DeliveredOnce`), and afterwards **every RX FIFO is empty** (no second copy is waiting).
+    One schedule (`runOthers`, `b` polled next), loss-free: a partial result w.r.t. the property's
+    quantifier over schedules. -/
 theorem C05_two_nodes (hc : L3Contracts) (cfg : AddrCfg) (hcfg : CfgOk cfg) (L : LinkCfg)
     (s : NetState) (a b : Nat) (x y : List Nat) (Pa Pb : List Bytes) (ty : Int) (msg : Bytes)
     (hx : IsNode x) (hy : IsNode y) (hadj : nextHopSpec x y = y) (hxy : x ≠ y)
@@ -404,11 +448,12 @@ theorem C05_two_nodes (hc : L3Contracts) (cfg : AddrCfg) (hcfg : CfgOk cfg) (L :
     (haddr_a : (s.nodeAt a).a = nodeSpec x) (hcfg_a : (s.nodeAt a).cfg = cfg)
     (hmax : msg.length ≤ (s.nodeAt a).maxMessageLength) (hlen : msg.length ≤ MAX_FRAG_SIZE)
     (hNb : NodeRadio L Pb true true 0x3E (s.nodeAt b).rf (s.radioAt b))
-    (hPb : beginPipes cfg (val y) = .ok Pb) (hlast : (s.radioAt b).lastRx = none)
+    (hPb : beginPipes cfg (val y) = .ok Pb) (hlast : NotDupFrame (s.radioAt b) (wireCopy (callerFrame x y s.nextId ty msg)))
     (haddr_b : (s.nodeAt b).a = nodeSpec y) (harr_b : (s.nodeAt b).arrivals = [])
     (hkind_b : (s.nodeAt b).kind ≠ .meshMaster)
     (hquiet : ∀ i, i < s.nodes.length → (s.radioAt i).rxFifo = [])
-    (hothers : ∀ r k, r ≠ s.ridAt a → r ≠ s.ridAt b → (s.w.radio r).listensTo k = none)
+    (hothers : ∀ r A buf pid, r ≠ s.ridAt a → r ≠ s.ridAt b → Pb[hopPipe x y]? = some A →
+      (s.w.radio r).listensTo (unicastPacket L A buf pid) = none)
     (hfaults : s.w.faults = []) (hty : 0 ≤ ty ∧ ty ≤ 127)
     (hroom : ((s.nodeAt b).queue.frames.length : Int) < (s.nodeAt b).queue.maxSize)
     (hnew : ∀ g ∈ (s.nodeAt b).queue.frames, ¬ (g.header.fromNode = val x ∧
@@ -416,7 +461,8 @@ theorem C05_two_nodes (hc : L3Contracts) (cfg : AddrCfg) (hcfg : CfgOk cfg) (L :
     ∃ s1 s2, nexec (apiNetWrite (val y) ty msg AUTO_ROUTING) s =
         (.ok (true, callerFrame x y s.nextId ty msg), s1) ∧
       nexec apiUpdate ((s1.ret).callAs b) = (.ok ty.toNat, s2) ∧
-      DeliveredOnce s.nodes s2.nodes b (val x) ty.toNat msg := by
+      DeliveredOnce s.nodes s2.nodes b (val x) ty.toNat msg ∧
+      ∀ i, i < s.nodes.length → (s2.radioAt i).rxFifo = [] := by
   obtain ⟨D, pk, A, pid, hpk, hw, r1, l1, f1, N1, x1, lr1, hrb, hoth⟩ :=
     C05_two_nodes_write hc cfg hcfg L s a b x y Pa Pb ty msg hx hy hadj hxy hcur hact hclosed ha hb hab hsize
       (fun i hi hia => hrid i a hi ha hia) hWa hNa haddr_a hcfg_a hmax hlen hNb hPb hlast
@@ -518,7 +564,7 @@ theorem C05_two_nodes (hc : L3Contracts) (cfg : AddrCfg) (hcfg : CfgOk cfg) (L :
       exact hnew)
   rw [hm2] at e
   rw [hidem] at e
-  refine ⟨s1, (((t.afterRf D1).withFrame (wireCopy c)).enqueued (wireCopy c)).afterRf D2, hw, ?_, ?_⟩
+  refine ⟨s1, (((t.afterRf D1).withFrame (wireCopy c)).enqueued (wireCopy c)).afterRf D2, hw, ?_, ?_, ?_⟩
   · rw [ht]
     show nexec (nodeUpdate (199999 + 1)) t = _
     refine nodeUpdate_plain 199999 t _ _ e ?_
@@ -555,6 +601,40 @@ theorem C05_two_nodes (hc : L3Contracts) (cfg : AddrCfg) (hcfg : CfgOk cfg) (L :
       by_cases hja : j = a
       · subst hja; rw [htata]
       · rw [htat j hja]
+  · -- quiescence: every RX FIFO is empty
+    intro i hi
+    have hc0 : t.cur < t.nodes.length := by rw [htc, htl]; exact hb
+    have hc1 : (t.afterRf D1).cur < (t.afterRf D1).nodes.length := by simpa using hc0
+    have hc2 : ((t.afterRf D1).withFrame (wireCopy c)).cur < ((t.afterRf D1).withFrame (wireCopy c)).nodes.length := by
+      simpa using hc0
+    have hc3 : (((t.afterRf D1).withFrame (wireCopy c)).enqueued (wireCopy c)).cur <
+        (((t.afterRf D1).withFrame (wireCopy c)).enqueued (wireCopy c)).nodes.length := by simpa using hc0
+    have F12 : DrvFrame t.drv D2 := F1.trans F2
+    by_cases hib : i = b
+    · subst hib
+      have : ((((t.afterRf D1).withFrame (wireCopy c)).enqueued (wireCopy c)).afterRf D2).nodeAt i =
+          ((((t.afterRf D1).withFrame (wireCopy c)).enqueued (wireCopy c)).afterRf D2).node := by
+        show _ = NetState.nodeAt _ (NetState.cur _)
+        simp [htc]
+      unfold NetState.radioAt NetState.ridAt
+      rw [this, afterRf_node _ _ hc3]
+      exact x2
+    · have hjc : i ≠ t.cur := by rw [htc]; exact hib
+      unfold NetState.radioAt NetState.ridAt
+      rw [nodeAt_afterRf_ne _ _ _ (by simpa using hjc), nodeAt_enqueued_ne _ _ _ (by simpa using hjc),
+        nodeAt_withFrame_ne _ _ _ (by simpa using hjc), nodeAt_afterRf_ne _ _ _ hjc]
+      show (D2.w.radio (t.nodeAt i).rf.rid).rxFifo = []
+      have hrid_i : (t.nodeAt i).rf.rid = s.ridAt i := by
+        by_cases hia : i = a
+        · subst hia; rw [htata]; exact r1
+        · rw [htat i hia]; rfl
+      have hne : (t.nodeAt i).rf.rid ≠ t.drv.d.rid := by
+        rw [hrid_i]
+        show _ ≠ t.node.rf.rid
+        rw [htn]
+        exact hrid i b hi hb hib
+      rw [F12.others _ hne]
+      exact htq i (by rw [htl]; exact hi) hjc (by rw [hta]; simpa using hib)
 
 /-- non-vacuity: every hypothesis of `C05_two_nodes` other than the driver contracts is satisfied
     by the concrete network of `NrfProofs/C05Example.lean` (master `0o0` and child `0o1` as their
@@ -563,7 +643,8 @@ example (hc : L3Contracts) : ∃ s1 s2,
     nexec (apiNetWrite (val [1]) 5 [1, 2, 3] AUTO_ROUTING) Example.two =
       (.ok (true, callerFrame [] [1] 4 5 [1, 2, 3]), s1) ∧
     nexec apiUpdate ((s1.ret).callAs 1) = (.ok 5, s2) ∧
-    DeliveredOnce Example.two.nodes s2.nodes 1 0 5 [1, 2, 3] :=
+    DeliveredOnce Example.two.nodes s2.nodes 1 0 5 [1, 2, 3] ∧
+    ∀ i, i < 2 → (s2.radioAt i).rxFifo = [] :=
   C05_two_nodes hc {} (by decide) Example.L Example.two 0 1 [] [1] Example.P0 Example.P1 5 [1, 2, 3]
     (by decide) (by decide) (by decide) (by decide) rfl rfl rfl (by decide) (by decide) (by decide) (by decide)
     (by
@@ -573,13 +654,13 @@ example (hc : L3Contracts) : ∃ s1 s2,
       have : (i = 0 ∧ j = 1) ∨ (i = 1 ∧ j = 0) := by omega
       rcases this with ⟨rfl, rfl⟩ | ⟨rfl, rfl⟩ <;> decide)
     (by decide) (by decide) Example.two_radio0 (by decide) (by decide) (by decide) (by decide)
-    Example.two_radio1 Example.two_pipes1 (by decide) (by decide) (by decide) (by decide)
+    Example.two_radio1 Example.two_pipes1 (NotDupFrame.of_none (by decide)) (by decide) (by decide) (by decide)
     (by
       intro i hi
       have hi' : i < 2 := hi
       have : i = 0 ∨ i = 1 := by omega
       rcases this with rfl | rfl <;> decide)
-    Example.two_others (by decide) (by decide) (by decide) (by decide)
+    (fun r A buf pid h1 h2 _ => Example.two_others r _ h1 h2) (by decide) (by decide) (by decide) (by decide)
 
 /-! ## routes, closed system -/
 
@@ -587,28 +668,30 @@ example (hc : L3Contracts) : ∃ s1 s2,
     system with the schedule of `runOthers`, loss-free, under the driver contracts.  `NetOk`: every
     node object is a distinct tree node on its own radio, configured alike, listening on its tree
     addresses, no scripted arrivals, empty fault script; nobody has address `0o4444`; all RX FIFOs are
-    empty; every node of the tree route from the caller `a` to `d` is present and has not received
-    anything yet (`lastRx = none`: the radio's duplicate filter cannot hit); the destination's queue
-    accepts the frame.  Then `write()` returns `True`, and the next `update()` of the first hop
+    empty; every node of the tree route from the caller `a` to `d` is present, and the packet its radio
+    accepted last — if any; the nodes need not be fresh — does not carry this frame's bytes (`NotDupFrame`:
+    the radio's duplicate filter cannot hit); the destination's queue accepts the frame.  Then `write()` returns `True`, and the next `update()` of the first hop
     (entered as the test session does) makes the whole route forward — each router's `update()` runs
     inside its predecessor's next `read()` — so that in the end **the destination's queue has gained
     exactly that message (origin, type, bytes) and every other node's queue is unchanged**
-    (`DeliveredOnce`), for routes of any length (C04: at most 8 hops).
+    (`DeliveredOnce`), and every RX FIFO is empty afterwards, for routes of any length (C04: at most 8 hops;
+    one hop included: neighbours in a full network).
 
     What this leaves open for the full statement (`C05_single` / `C05_frag` of DESIGN §7) — hence
     `_partial`: (1) schedules other than `runOthers` (e.g. the `update()` being made by a node off the
     route, or a router polled only later; here the first hop's own `update()` starts the cascade);
     (2) types 65..127, whose NETWORK_ACK round trip is C13's liveness; (3) messages longer than 24
-    bytes over more than one hop (one hop: `C05_two_nodes_frag_closed`; what routers add is described at the
-    end of the file); (4) routers that
-    received frames before (`lastRx`), which needs the PID sequence of the sender in the invariant. -/
+    bytes over more than one hop (one hop: `C05_two_nodes_frag_closed_partial`; what routers add is described at the
+    end of the file).  (The former restriction (4) — radios that never received anything — is gone:
+    `NotDupFrame`.) -/
 theorem C05_route_partial (hc : L3Contracts) (cfg : AddrCfg) (hcfg : CfgOk cfg) (L : LinkCfg)
     (tree : Nat → List Nat) (s : NetState) (a : Nat) (d : List Nat) (ty : Int) (msg : Bytes)
     (hok : NetOk cfg L tree s) (hcur : s.cur = a) (hact : s.active = [a]) (ha : a < s.nodes.length)
     (hsize : s.nodes.length ≤ 20000) (hndef : ∀ i, val (tree i) ≠ NETWORK_DEFAULT_ADDR)
     (hd : IsNode d) (hxd : tree a ≠ d)
     (hroute : ∀ k, 1 ≤ k → k ≤ dist (tree a) d →
-      ∃ j, j < s.nodes.length ∧ tree j = hops k (tree a) d ∧ (s.radioAt j).lastRx = none)
+      ∃ j, j < s.nodes.length ∧ tree j = hops k (tree a) d ∧
+        NotDupFrame (s.radioAt j) (wireCopy (callerFrame (tree a) d s.nextId ty msg)))
     (hquiet : ∀ i, i < s.nodes.length → (s.radioAt i).rxFifo = [])
     (hty : 0 ≤ ty ∧ ty ≤ 64) (hlen : msg.length ≤ MAX_FRAG_SIZE)
     (hmax : msg.length ≤ (s.nodeAt a).maxMessageLength)
@@ -618,7 +701,8 @@ theorem C05_route_partial (hc : L3Contracts) (cfg : AddrCfg) (hcfg : CfgOk cfg) 
       nexec (apiNetWrite (val d) ty msg AUTO_ROUTING) s =
         (.ok (true, callerFrame (tree a) d s.nextId ty msg), s1) ∧
       ∃ r s2, nexec apiUpdate ((s1.ret).callAs j1) = (.ok r, s2) ∧
-        DeliveredOnce s.nodes s2.nodes jd (val (tree a)) ty.toNat msg := by
+        DeliveredOnce s.nodes s2.nodes jd (val (tree a)) ty.toNat msg ∧
+        ∀ i, i < s.nodes.length → (s2.radioAt i).rxFifo = [] := by
   subst hcur
   generalize hx : tree s.cur = x at *
   have hxn : IsNode x := by have := (hok.node s.cur ha).1; rw [hx] at this; exact this
@@ -632,7 +716,7 @@ theorem C05_route_partial (hc : L3Contracts) (cfg : AddrCfg) (hcfg : CfgOk cfg) 
   rw [hops_dist] at htjd
   obtain ⟨D, pk, A, pid, P, hpk, hw, hP, r1, l1, f1, N1, x1, hrb, hoth⟩ :=
     write_hop hc cfg hcfg L tree s d ty msg j hok ha hact (by omega) hd (by rw [hx]; exact hxd) hj
-      (by rw [hx]; exact htj') hjl hquiet hty hlen hmax
+      (by rw [hx]; exact htj') (by rw [hx]; exact hjl) hquiet hty hlen hmax
   rw [hx] at hpk hw hP hrb
   generalize hcdef : callerFrame x d s.nextId ty msg = c at *
   have hm1 : maskInt ty 0xFF = ty.toNat := by
@@ -737,7 +821,7 @@ theorem C05_route_partial (hc : L3Contracts) (cfg : AddrCfg) (hcfg : CfgOk cfg) 
         exact hops_ne_origin (s := x) (d := d) (n := k + 1) (by omega) (by omega) htj''.symm
       refine ⟨j', by rw [htl]; exact hj', by rw [htc, htj']; exact htj'', ?_, ?_⟩
       · rw [hta]; simp only [List.mem_singleton]; exact hj'j
-      · rw [htrad, hs1rad j' hj' hj'a hj'j]; exact hjl'
+      · rw [htrad, hs1rad j' hj' hj'a hj'j]; exact hjl'.notDup hpk
     · have := C04_listens cfg hcfg x d hxn hd hxd TX_NORMAL (Or.inl rfl)
       exact this.2.1
     · intro k hk hkj
@@ -759,7 +843,7 @@ theorem C05_route_partial (hc : L3Contracts) (cfg : AddrCfg) (hcfg : CfgOk cfg) 
         Nat.mul_le_mul_right _ h1
       omega)
   rw [htl] at Afifo Aqueue
-  refine ⟨s1, j, jd, hj, htj', hjd, htjd, hw, r, s2, ?_, ?_⟩
+  refine ⟨s1, j, jd, hj, htj', hjd, htjd, hw, r, s2, ?_, ?_, Afifo⟩
   · rw [ht]; exact e2
   · have hl2 : s2.nodes.length = s.nodes.length := by rw [Asame.len, htl]
     refine ⟨hl2, ⟨wireCopy c, ?_, ?_⟩, ?_⟩
@@ -782,7 +866,8 @@ example (hc : L3Contracts) : ∃ s1 j1 jd, j1 < 3 ∧ Example.tree3 j1 = [1] ∧
     nexec (apiNetWrite (val []) 7 [9, 8, 7] AUTO_ROUTING) Example.three =
       (.ok (true, callerFrame [1, 1] [] 6 7 [9, 8, 7]), s1) ∧
     ∃ r s2, nexec apiUpdate ((s1.ret).callAs j1) = (.ok r, s2) ∧
-      DeliveredOnce Example.three.nodes s2.nodes jd (val [1, 1]) 7 [9, 8, 7] :=
+      DeliveredOnce Example.three.nodes s2.nodes jd (val [1, 1]) 7 [9, 8, 7] ∧
+      ∀ i, i < 3 → (s2.radioAt i).rxFifo = [] :=
   C05_route_partial hc {} (by decide) Example.L Example.tree3 Example.three 2 [] 7 [9, 8, 7]
     Example.three_ok rfl rfl (by decide) (by decide)
     (by
@@ -802,8 +887,8 @@ example (hc : L3Contracts) : ∃ s1 j1 jd, j1 < 3 ∧ Example.tree3 j1 = [1] ∧
       rw [hd] at hk2
       have : k = 1 ∨ k = 2 := by omega
       rcases this with rfl | rfl
-      · exact ⟨1, by decide, by decide, by decide⟩
-      · exact ⟨0, by decide, by decide, by decide⟩)
+      · exact ⟨1, by decide, by decide, NotDupFrame.of_none (by decide)⟩
+      · exact ⟨0, by decide, by decide, NotDupFrame.of_none (by decide)⟩)
     (by
       intro i hi
       have hi' : i < 3 := hi
@@ -825,7 +910,7 @@ example (hc : L3Contracts) : ∃ s1 j1 jd, j1 < 3 ∧ Example.tree3 j1 = [1] ∧
 over the chip and the air, so the closed-system theorems above hold without that hypothesis. -/
 
 /-- `C05_two_nodes_write` without the hypothesis `L3Contracts` (discharged by `l3contracts`) -/
-theorem C05_two_nodes_write_closed (cfg : AddrCfg) (hcfg : CfgOk cfg) (L : LinkCfg)
+theorem C05_two_nodes_write_closed_partial (cfg : AddrCfg) (hcfg : CfgOk cfg) (L : LinkCfg)
     (s : NetState) (a b : Nat) (x y : List Nat) (Pa Pb : List Bytes) (ty : Int) (msg : Bytes)
     (hx : IsNode x) (hy : IsNode y) (hadj : nextHopSpec x y = y) (hxy : x ≠ y)
     (hcur : s.cur = a) (hact : s.active = [a]) (hclosed : s.closed = true)
@@ -836,9 +921,10 @@ theorem C05_two_nodes_write_closed (cfg : AddrCfg) (hcfg : CfgOk cfg) (L : LinkC
     (haddr_a : (s.nodeAt a).a = nodeSpec x) (hcfg_a : (s.nodeAt a).cfg = cfg)
     (hmax : msg.length ≤ (s.nodeAt a).maxMessageLength) (hlen : msg.length ≤ MAX_FRAG_SIZE)
     (hNb : NodeRadio L Pb true true 0x3E (s.nodeAt b).rf (s.radioAt b))
-    (hPb : beginPipes cfg (val y) = .ok Pb) (hlast : (s.radioAt b).lastRx = none)
+    (hPb : beginPipes cfg (val y) = .ok Pb) (hlast : NotDupFrame (s.radioAt b) (wireCopy (callerFrame x y s.nextId ty msg)))
     (hquiet : ∀ i, i < s.nodes.length → i ≠ a → (s.radioAt i).rxFifo = [])
-    (hothers : ∀ r k, r ≠ s.ridAt a → r ≠ s.ridAt b → (s.w.radio r).listensTo k = none)
+    (hothers : ∀ r A buf pid, r ≠ s.ridAt a → r ≠ s.ridAt b → Pb[hopPipe x y]? = some A →
+      (s.w.radio r).listensTo (unicastPacket L A buf pid) = none)
     (hfaults : s.w.faults = []) :
     ∃ (D : DrvState) (pk A : Bytes) (pid : Nat),
       (wireCopy (callerFrame x y s.nextId ty msg)).pack = .ok pk ∧
@@ -856,7 +942,7 @@ theorem C05_two_nodes_write_closed (cfg : AddrCfg) (hcfg : CfgOk cfg) (L : LinkC
 
 /-- **`C05_two_nodes` unconditionally**: a single-frame user message between two neighbours is delivered
     exactly once, intact (closed system, loss-free) — the driver contracts are discharged by `l3contracts` -/
-theorem C05_two_nodes_closed (cfg : AddrCfg) (hcfg : CfgOk cfg) (L : LinkCfg)
+theorem C05_two_nodes_closed_partial (cfg : AddrCfg) (hcfg : CfgOk cfg) (L : LinkCfg)
     (s : NetState) (a b : Nat) (x y : List Nat) (Pa Pb : List Bytes) (ty : Int) (msg : Bytes)
     (hx : IsNode x) (hy : IsNode y) (hadj : nextHopSpec x y = y) (hxy : x ≠ y)
     (hcur : s.cur = a) (hact : s.active = [a]) (hclosed : s.closed = true)
@@ -867,11 +953,12 @@ theorem C05_two_nodes_closed (cfg : AddrCfg) (hcfg : CfgOk cfg) (L : LinkCfg)
     (haddr_a : (s.nodeAt a).a = nodeSpec x) (hcfg_a : (s.nodeAt a).cfg = cfg)
     (hmax : msg.length ≤ (s.nodeAt a).maxMessageLength) (hlen : msg.length ≤ MAX_FRAG_SIZE)
     (hNb : NodeRadio L Pb true true 0x3E (s.nodeAt b).rf (s.radioAt b))
-    (hPb : beginPipes cfg (val y) = .ok Pb) (hlast : (s.radioAt b).lastRx = none)
+    (hPb : beginPipes cfg (val y) = .ok Pb) (hlast : NotDupFrame (s.radioAt b) (wireCopy (callerFrame x y s.nextId ty msg)))
     (haddr_b : (s.nodeAt b).a = nodeSpec y) (harr_b : (s.nodeAt b).arrivals = [])
     (hkind_b : (s.nodeAt b).kind ≠ .meshMaster)
     (hquiet : ∀ i, i < s.nodes.length → (s.radioAt i).rxFifo = [])
-    (hothers : ∀ r k, r ≠ s.ridAt a → r ≠ s.ridAt b → (s.w.radio r).listensTo k = none)
+    (hothers : ∀ r A buf pid, r ≠ s.ridAt a → r ≠ s.ridAt b → Pb[hopPipe x y]? = some A →
+      (s.w.radio r).listensTo (unicastPacket L A buf pid) = none)
     (hfaults : s.w.faults = []) (hty : 0 ≤ ty ∧ ty ≤ 127)
     (hroom : ((s.nodeAt b).queue.frames.length : Int) < (s.nodeAt b).queue.maxSize)
     (hnew : ∀ g ∈ (s.nodeAt b).queue.frames, ¬ (g.header.fromNode = val x ∧
@@ -879,7 +966,8 @@ theorem C05_two_nodes_closed (cfg : AddrCfg) (hcfg : CfgOk cfg) (L : LinkCfg)
     ∃ s1 s2, nexec (apiNetWrite (val y) ty msg AUTO_ROUTING) s =
         (.ok (true, callerFrame x y s.nextId ty msg), s1) ∧
       nexec apiUpdate ((s1.ret).callAs b) = (.ok ty.toNat, s2) ∧
-      DeliveredOnce s.nodes s2.nodes b (val x) ty.toNat msg :=
+      DeliveredOnce s.nodes s2.nodes b (val x) ty.toNat msg ∧
+      ∀ i, i < s.nodes.length → (s2.radioAt i).rxFifo = [] :=
   C05_two_nodes l3contracts cfg hcfg L s a b x y Pa Pb ty msg hx hy hadj hxy hcur hact hclosed ha hb hab hsize
     hrid hWa hWb hNa haddr_a hcfg_a hmax hlen hNb hPb hlast haddr_b harr_b hkind_b hquiet hothers hfaults hty
     hroom hnew
@@ -889,8 +977,9 @@ example : ∃ s1 s2,
     nexec (apiNetWrite (val [1]) 5 [1, 2, 3] AUTO_ROUTING) Example.two =
       (.ok (true, callerFrame [] [1] 4 5 [1, 2, 3]), s1) ∧
     nexec apiUpdate ((s1.ret).callAs 1) = (.ok 5, s2) ∧
-    DeliveredOnce Example.two.nodes s2.nodes 1 0 5 [1, 2, 3] :=
-  C05_two_nodes_closed {} (by decide) Example.L Example.two 0 1 [] [1] Example.P0 Example.P1 5 [1, 2, 3]
+    DeliveredOnce Example.two.nodes s2.nodes 1 0 5 [1, 2, 3] ∧
+    ∀ i, i < 2 → (s2.radioAt i).rxFifo = [] :=
+  C05_two_nodes_closed_partial {} (by decide) Example.L Example.two 0 1 [] [1] Example.P0 Example.P1 5 [1, 2, 3]
     (by decide) (by decide) (by decide) (by decide) rfl rfl rfl (by decide) (by decide) (by decide) (by decide)
     (by
       intro i j hi hj hij
@@ -899,13 +988,13 @@ example : ∃ s1 s2,
       have : (i = 0 ∧ j = 1) ∨ (i = 1 ∧ j = 0) := by omega
       rcases this with ⟨rfl, rfl⟩ | ⟨rfl, rfl⟩ <;> decide)
     (by decide) (by decide) Example.two_radio0 (by decide) (by decide) (by decide) (by decide)
-    Example.two_radio1 Example.two_pipes1 (by decide) (by decide) (by decide) (by decide)
+    Example.two_radio1 Example.two_pipes1 (NotDupFrame.of_none (by decide)) (by decide) (by decide) (by decide)
     (by
       intro i hi
       have hi' : i < 2 := hi
       have : i = 0 ∨ i = 1 := by omega
       rcases this with rfl | rfl <;> decide)
-    Example.two_others (by decide) (by decide) (by decide) (by decide)
+    (fun r A buf pid h1 h2 _ => Example.two_others r _ h1 h2) (by decide) (by decide) (by decide) (by decide)
 
 /-- **`C05_route_partial` unconditionally** (the driver contracts discharged by `l3contracts`); what it
     leaves open for the full statement is listed at `C05_route_partial` -/
@@ -915,7 +1004,8 @@ theorem C05_route_closed_partial (cfg : AddrCfg) (hcfg : CfgOk cfg) (L : LinkCfg
     (hsize : s.nodes.length ≤ 20000) (hndef : ∀ i, val (tree i) ≠ NETWORK_DEFAULT_ADDR)
     (hd : IsNode d) (hxd : tree a ≠ d)
     (hroute : ∀ k, 1 ≤ k → k ≤ dist (tree a) d →
-      ∃ j, j < s.nodes.length ∧ tree j = hops k (tree a) d ∧ (s.radioAt j).lastRx = none)
+      ∃ j, j < s.nodes.length ∧ tree j = hops k (tree a) d ∧
+        NotDupFrame (s.radioAt j) (wireCopy (callerFrame (tree a) d s.nextId ty msg)))
     (hquiet : ∀ i, i < s.nodes.length → (s.radioAt i).rxFifo = [])
     (hty : 0 ≤ ty ∧ ty ≤ 64) (hlen : msg.length ≤ MAX_FRAG_SIZE)
     (hmax : msg.length ≤ (s.nodeAt a).maxMessageLength)
@@ -925,7 +1015,8 @@ theorem C05_route_closed_partial (cfg : AddrCfg) (hcfg : CfgOk cfg) (L : LinkCfg
       nexec (apiNetWrite (val d) ty msg AUTO_ROUTING) s =
         (.ok (true, callerFrame (tree a) d s.nextId ty msg), s1) ∧
       ∃ r s2, nexec apiUpdate ((s1.ret).callAs j1) = (.ok r, s2) ∧
-        DeliveredOnce s.nodes s2.nodes jd (val (tree a)) ty.toNat msg :=
+        DeliveredOnce s.nodes s2.nodes jd (val (tree a)) ty.toNat msg ∧
+        ∀ i, i < s.nodes.length → (s2.radioAt i).rxFifo = [] :=
   C05_route_partial l3contracts cfg hcfg L tree s a d ty msg hok hcur hact ha hsize hndef hd hxd hroute hquiet
     hty hlen hmax hacc
 
@@ -934,7 +1025,8 @@ example : ∃ s1 j1 jd, j1 < 3 ∧ Example.tree3 j1 = [1] ∧ jd < 3 ∧ Example
     nexec (apiNetWrite (val []) 7 [9, 8, 7] AUTO_ROUTING) Example.three =
       (.ok (true, callerFrame [1, 1] [] 6 7 [9, 8, 7]), s1) ∧
     ∃ r s2, nexec apiUpdate ((s1.ret).callAs j1) = (.ok r, s2) ∧
-      DeliveredOnce Example.three.nodes s2.nodes jd (val [1, 1]) 7 [9, 8, 7] :=
+      DeliveredOnce Example.three.nodes s2.nodes jd (val [1, 1]) 7 [9, 8, 7] ∧
+      ∀ i, i < 3 → (s2.radioAt i).rxFifo = [] :=
   C05_route_closed_partial {} (by decide) Example.L Example.tree3 Example.three 2 [] 7 [9, 8, 7]
     Example.three_ok rfl rfl (by decide) (by decide)
     (by
@@ -954,8 +1046,8 @@ example : ∃ s1 j1 jd, j1 < 3 ∧ Example.tree3 j1 = [1] ∧ jd < 3 ∧ Example
       rw [hd] at hk2
       have : k = 1 ∨ k = 2 := by omega
       rcases this with rfl | rfl
-      · exact ⟨1, by decide, by decide, by decide⟩
-      · exact ⟨0, by decide, by decide, by decide⟩)
+      · exact ⟨1, by decide, by decide, NotDupFrame.of_none (by decide)⟩
+      · exact ⟨0, by decide, by decide, NotDupFrame.of_none (by decide)⟩)
     (by
       intro i hi
       have hi' : i < 3 := hi
@@ -980,7 +1072,8 @@ example : ∃ s1 j1 jd, j1 < 3 ∧ Example.tree3 j1 = [1] ∧ jd < 3 ∧ Example
     the next `update()` of `b` (entered as the test session does, `runAs`) returns 150 (the type of the
     last fragment), and between the initial and the final state **the queue of `b` has gained exactly one
     frame — origin `x`, the message's own type, the complete bytes — and every other node's queue is
-    unchanged** (`DeliveredOnce`).
+    unchanged** (`DeliveredOnce`), and afterwards **every RX FIFO is empty** (no second copy of any fragment
+    is waiting).
 
     How (NrfProofs/C05FragB–D): the fragment loop of `_write_to_pipe` is the execution of the fragment plan
     (`C05_local_tx`); every `send` of the loop is a scheduling point at which `b` — and nobody else — runs
@@ -990,7 +1083,16 @@ example : ∃ s1 j1 jd, j1 < 3 ∧ Example.tree3 j1 = [1] ∧ jd < 3 ∧ Example
     type / countdown bytes of their headers (`rxFrag_succ_ne`), so the receiving radio's duplicate filter
     (same PID, address and bytes as the last accepted packet) is silent whatever the PIDs are; the LAST
     fragment waits in the RX FIFO when `write()` returns and completes the message at `b`'s next
-    `update()` (`deliver_last`, `C05_frag_reassembly`). -/
+    `update()` (`deliver_last`, `C05_frag_reassembly`).
+
+    What is asked of the rest of the world (weakened after review): `hdup` — the packet `b`'s radio accepted
+    last, if any, is not the packed FIRST fragment of this message (`b` need not be fresh; later fragments
+    are covered by `rxFrag_succ_ne`); `hothers` — no third radio listens on the address of `b`'s pipe the
+    packets go to (true in every `NetOk` network: `C05_neighbours_frag_closed_partial`), no longer "third radios
+    are deaf".  The mechanism sentences above (one FIFO slot, silent duplicate filter) describe the proof; the
+    STATEMENT concludes `write() = True`, `update() = 150`, `DeliveredOnce` and quiescence (after `b`'s
+    `update()` every RX FIFO of the network is empty).
+    One schedule (`runOthers`, `b` polled next), loss-free: a partial result. -/
 theorem C05_two_nodes_frag (hc : L3Contracts) (cfg : AddrCfg) (hcfg : CfgOk cfg) (L : LinkCfg)
     (s : NetState) (a b : Nat) (x y : List Nat) (Pa Pb : List Bytes) (ty : Int) (msg : Bytes)
     (hx : IsNode x) (hy : IsNode y) (hadj : nextHopSpec x y = y) (hxy : x ≠ y)
@@ -1004,11 +1106,14 @@ theorem C05_two_nodes_frag (hc : L3Contracts) (cfg : AddrCfg) (hcfg : CfgOk cfg)
     (hmax : msg.length ≤ (s.nodeAt a).maxMessageLength) (hlen : MAX_FRAG_SIZE < msg.length)
     (hlen144 : msg.length ≤ 144)
     (hNb : NodeRadio L Pb true true 0x3E (s.nodeAt b).rf (s.radioAt b))
-    (hPb : beginPipes cfg (val y) = .ok Pb) (hlast : (s.radioAt b).lastRx = none)
+    (hPb : beginPipes cfg (val y) = .ok Pb)
+    (hdup : NotDupFrame (s.radioAt b) ⟨⟨val x, val y, s.nextId &&& 0xFFFF, .int MSG_FRAG_FIRST,
+      fragTotal msg.length⟩, msg.take MAX_FRAG_SIZE⟩)
     (haddr_b : (s.nodeAt b).a = nodeSpec y) (harr_b : (s.nodeAt b).arrivals = [])
     (hkind_b : (s.nodeAt b).kind ≠ .meshMaster) (hfrag_b : (s.nodeAt b).queue.frag = true)
     (hquiet : ∀ i, i < s.nodes.length → (s.radioAt i).rxFifo = [])
-    (hothers : ∀ r k, r ≠ s.ridAt a → r ≠ s.ridAt b → (s.w.radio r).listensTo k = none)
+    (hothers : ∀ r A buf pid, r ≠ s.ridAt a → r ≠ s.ridAt b → Pb[hopPipe x y]? = some A →
+      (s.w.radio r).listensTo (unicastPacket L A buf pid) = none)
     (hfaults : s.w.faults = []) (hty : 0 ≤ ty ∧ ty ≤ 127)
     (hroom : ((s.nodeAt b).queue.frames.length : Int) < (s.nodeAt b).queue.maxSize)
     (hnew : ∀ g ∈ (s.nodeAt b).queue.frames, ¬ (g.header.fromNode = val x ∧
@@ -1016,9 +1121,10 @@ theorem C05_two_nodes_frag (hc : L3Contracts) (cfg : AddrCfg) (hcfg : CfgOk cfg)
     ∃ s1 s2, nexec (apiNetWrite (val y) ty msg AUTO_ROUTING) s =
         (.ok (true, callerFrame x y s.nextId ty msg), s1) ∧
       nexec apiUpdate ((s1.ret).callAs b) = (.ok MSG_FRAG_LAST, s2) ∧
-      DeliveredOnce s.nodes s2.nodes b (val x) ty.toNat msg :=
+      DeliveredOnce s.nodes s2.nodes b (val x) ty.toNat msg ∧
+      ∀ i, i < s.nodes.length → (s2.radioAt i).rxFifo = [] :=
   two_nodes_frag hc cfg hcfg L s a b x y Pa Pb ty msg hx hy hadj hxy hcur hact hclosed ha hb hab hsize hrid hWa hWb
-    hNa haddr_a hcfg_a hfrag_a hmax hlen hlen144 hNb hPb hlast haddr_b harr_b hkind_b hfrag_b hquiet hothers
+    hNa haddr_a hcfg_a hfrag_a hmax hlen hlen144 hNb hPb hdup haddr_b harr_b hkind_b hfrag_b hquiet hothers
     hfaults hty hroom hnew
 
 /-- non-vacuity: every hypothesis of `C05_two_nodes_frag` other than the driver contracts is satisfied by the
@@ -1028,7 +1134,8 @@ example (hc : L3Contracts) : ∃ s1 s2,
     nexec (apiNetWrite (val [1]) 5 (List.range 60) AUTO_ROUTING) Example.two =
       (.ok (true, callerFrame [] [1] 4 5 (List.range 60)), s1) ∧
     nexec apiUpdate ((s1.ret).callAs 1) = (.ok 150, s2) ∧
-    DeliveredOnce Example.two.nodes s2.nodes 1 0 5 (List.range 60) :=
+    DeliveredOnce Example.two.nodes s2.nodes 1 0 5 (List.range 60) ∧
+    ∀ i, i < 2 → (s2.radioAt i).rxFifo = [] :=
   C05_two_nodes_frag hc {} (by decide) Example.L Example.two 0 1 [] [1] Example.P0 Example.P1 5 (List.range 60)
     (by decide) (by decide) (by decide) (by decide) rfl rfl rfl (by decide) (by decide) (by decide) (by decide)
     (by
@@ -1039,18 +1146,19 @@ example (hc : L3Contracts) : ∃ s1 s2,
       rcases this with ⟨rfl, rfl⟩ | ⟨rfl, rfl⟩ <;> decide)
     (by decide) (by decide) Example.two_radio0 (by decide) (by decide) (by decide) (by decide) (by decide)
     (by decide)
-    Example.two_radio1 Example.two_pipes1 (by decide) (by decide) (by decide) (by decide) (by decide)
+    Example.two_radio1 Example.two_pipes1 (NotDupFrame.of_none (by decide)) (by decide) (by decide) (by decide)
+    (by decide)
     (by
       intro i hi
       have hi' : i < 2 := hi
       have : i = 0 ∨ i = 1 := by omega
       rcases this with rfl | rfl <;> decide)
-    Example.two_others (by decide) (by decide) (by decide) (by decide)
+    (fun r _ _ _ h0 h1 _ => Example.two_others r _ h0 h1) (by decide) (by decide) (by decide) (by decide)
 
 /-- **`C05_two_nodes_frag` unconditionally**: a fragmented user message (25..144 bytes) between two
     neighbours is delivered exactly once, intact (closed system, loss-free) — the driver contracts are
     discharged by `l3contracts` -/
-theorem C05_two_nodes_frag_closed (cfg : AddrCfg) (hcfg : CfgOk cfg) (L : LinkCfg)
+theorem C05_two_nodes_frag_closed_partial (cfg : AddrCfg) (hcfg : CfgOk cfg) (L : LinkCfg)
     (s : NetState) (a b : Nat) (x y : List Nat) (Pa Pb : List Bytes) (ty : Int) (msg : Bytes)
     (hx : IsNode x) (hy : IsNode y) (hadj : nextHopSpec x y = y) (hxy : x ≠ y)
     (hcur : s.cur = a) (hact : s.active = [a]) (hclosed : s.closed = true)
@@ -1063,11 +1171,14 @@ theorem C05_two_nodes_frag_closed (cfg : AddrCfg) (hcfg : CfgOk cfg) (L : LinkCf
     (hmax : msg.length ≤ (s.nodeAt a).maxMessageLength) (hlen : MAX_FRAG_SIZE < msg.length)
     (hlen144 : msg.length ≤ 144)
     (hNb : NodeRadio L Pb true true 0x3E (s.nodeAt b).rf (s.radioAt b))
-    (hPb : beginPipes cfg (val y) = .ok Pb) (hlast : (s.radioAt b).lastRx = none)
+    (hPb : beginPipes cfg (val y) = .ok Pb)
+    (hdup : NotDupFrame (s.radioAt b) ⟨⟨val x, val y, s.nextId &&& 0xFFFF, .int MSG_FRAG_FIRST,
+      fragTotal msg.length⟩, msg.take MAX_FRAG_SIZE⟩)
     (haddr_b : (s.nodeAt b).a = nodeSpec y) (harr_b : (s.nodeAt b).arrivals = [])
     (hkind_b : (s.nodeAt b).kind ≠ .meshMaster) (hfrag_b : (s.nodeAt b).queue.frag = true)
     (hquiet : ∀ i, i < s.nodes.length → (s.radioAt i).rxFifo = [])
-    (hothers : ∀ r k, r ≠ s.ridAt a → r ≠ s.ridAt b → (s.w.radio r).listensTo k = none)
+    (hothers : ∀ r A buf pid, r ≠ s.ridAt a → r ≠ s.ridAt b → Pb[hopPipe x y]? = some A →
+      (s.w.radio r).listensTo (unicastPacket L A buf pid) = none)
     (hfaults : s.w.faults = []) (hty : 0 ≤ ty ∧ ty ≤ 127)
     (hroom : ((s.nodeAt b).queue.frames.length : Int) < (s.nodeAt b).queue.maxSize)
     (hnew : ∀ g ∈ (s.nodeAt b).queue.frames, ¬ (g.header.fromNode = val x ∧
@@ -1075,9 +1186,10 @@ theorem C05_two_nodes_frag_closed (cfg : AddrCfg) (hcfg : CfgOk cfg) (L : LinkCf
     ∃ s1 s2, nexec (apiNetWrite (val y) ty msg AUTO_ROUTING) s =
         (.ok (true, callerFrame x y s.nextId ty msg), s1) ∧
       nexec apiUpdate ((s1.ret).callAs b) = (.ok MSG_FRAG_LAST, s2) ∧
-      DeliveredOnce s.nodes s2.nodes b (val x) ty.toNat msg :=
+      DeliveredOnce s.nodes s2.nodes b (val x) ty.toNat msg ∧
+      ∀ i, i < s.nodes.length → (s2.radioAt i).rxFifo = [] :=
   C05_two_nodes_frag l3contracts cfg hcfg L s a b x y Pa Pb ty msg hx hy hadj hxy hcur hact hclosed ha hb hab hsize
-    hrid hWa hWb hNa haddr_a hcfg_a hfrag_a hmax hlen hlen144 hNb hPb hlast haddr_b harr_b hkind_b hfrag_b hquiet
+    hrid hWa hWb hNa haddr_a hcfg_a hfrag_a hmax hlen hlen144 hNb hPb hdup haddr_b harr_b hkind_b hfrag_b hquiet
     hothers hfaults hty hroom hnew
 
 /-- non-vacuity (the concrete network of `NrfProofs/C05Example.lean`; 60 bytes = three fragments), without
@@ -1087,8 +1199,9 @@ example : ∃ s1 s2,
     nexec (apiNetWrite (val [1]) 5 (List.range 60) AUTO_ROUTING) Example.two =
       (.ok (true, callerFrame [] [1] 4 5 (List.range 60)), s1) ∧
     nexec apiUpdate ((s1.ret).callAs 1) = (.ok 150, s2) ∧
-    DeliveredOnce Example.two.nodes s2.nodes 1 0 5 (List.range 60) :=
-  C05_two_nodes_frag_closed {} (by decide) Example.L Example.two 0 1 [] [1] Example.P0 Example.P1 5 (List.range 60)
+    DeliveredOnce Example.two.nodes s2.nodes 1 0 5 (List.range 60) ∧
+    ∀ i, i < 2 → (s2.radioAt i).rxFifo = [] :=
+  C05_two_nodes_frag_closed_partial {} (by decide) Example.L Example.two 0 1 [] [1] Example.P0 Example.P1 5 (List.range 60)
     (by decide) (by decide) (by decide) (by decide) rfl rfl rfl (by decide) (by decide) (by decide) (by decide)
     (by
       intro i j hi hj hij
@@ -1098,13 +1211,14 @@ example : ∃ s1 s2,
       rcases this with ⟨rfl, rfl⟩ | ⟨rfl, rfl⟩ <;> decide)
     (by decide) (by decide) Example.two_radio0 (by decide) (by decide) (by decide) (by decide) (by decide)
     (by decide)
-    Example.two_radio1 Example.two_pipes1 (by decide) (by decide) (by decide) (by decide) (by decide)
+    Example.two_radio1 Example.two_pipes1 (NotDupFrame.of_none (by decide)) (by decide) (by decide) (by decide)
+    (by decide)
     (by
       intro i hi
       have hi' : i < 2 := hi
       have : i = 0 ∨ i = 1 := by omega
       rcases this with rfl | rfl <;> decide)
-    Example.two_others (by decide) (by decide) (by decide) (by decide)
+    (fun r _ _ _ h0 h1 _ => Example.two_others r _ h0 h1) (by decide) (by decide) (by decide) (by decide)
 
 /-! ### fragmented messages over more than one hop — what is missing
 
@@ -1142,33 +1256,181 @@ needs what the link layer of this development does not have yet:
     `send`, NrfProofs/L3Send.lean) and `rxFrag_succ_ne` (consecutive fragments differ) are the ingredients.
 -/
 
+/-! ## neighbours in a full network
+
+The two-node theorems above speak of two node objects and ask, of the rest of the world, only that no third
+radio listens on the address of the pipe the packet goes to (`hothers`).  In a tree network in which every
+node listens on its own six tree addresses (`NetOk`: any number of running nodes) that is a theorem
+(`NetOk.hothers`, NrfProofs/C05Net.lean: tree addresses identify (node, pipe), `C04_unique`), and all the other
+per-node hypotheses are part of `NetOk`.  Hence: -/
+
+/-- **Neighbours in a full network, single frame, every user type 0..127** — closed `runOthers` system,
+    loss-free, driver contracts proved.  In a `NetOk` tree network of any number of running nodes, all RX
+    FIFOs empty, node `a` writes a message of at most 24 bytes of a user type 0..127 for its neighbour
+    (parent or child) `tree b`; the packet `b`'s radio accepted last, if any, does not carry this frame's
+    bytes (`NotDupFrame`); `b`'s queue has room and no frame of the same origin, id and type.  Then
+    `write()` returns `True` (for the types 65..127 too: between neighbours no NETWORK_ACK is awaited), the
+    next `update()` of `b` returns the type, `b`'s queue has gained exactly that message, every other node's
+    queue — the bystanders' included — is unchanged, and afterwards every RX FIFO is empty (no second copy
+    is waiting anywhere).
+
+    `_partial`: one schedule (`runOthers`; `b` polled next), loss-free, single frame; see the file header. -/
+theorem C05_neighbours_closed_partial (cfg : AddrCfg) (hcfg : CfgOk cfg) (L : LinkCfg)
+    (tree : Nat → List Nat) (s : NetState) (a b : Nat) (ty : Int) (msg : Bytes)
+    (hok : NetOk cfg L tree s) (hcur : s.cur = a) (hact : s.active = [a])
+    (ha : a < s.nodes.length) (hb : b < s.nodes.length) (hab : a ≠ b) (hsize : s.nodes.length ≤ 100000)
+    (hadj : nextHopSpec (tree a) (tree b) = tree b)
+    (hdup : NotDupFrame (s.radioAt b) (wireCopy (callerFrame (tree a) (tree b) s.nextId ty msg)))
+    (hquiet : ∀ i, i < s.nodes.length → (s.radioAt i).rxFifo = [])
+    (hty : 0 ≤ ty ∧ ty ≤ 127) (hlen : msg.length ≤ MAX_FRAG_SIZE)
+    (hmax : msg.length ≤ (s.nodeAt a).maxMessageLength)
+    (hroom : ((s.nodeAt b).queue.frames.length : Int) < (s.nodeAt b).queue.maxSize)
+    (hnew : ∀ g ∈ (s.nodeAt b).queue.frames, ¬ (g.header.fromNode = val (tree a) ∧
+      g.header.frameId = s.nextId &&& 0xFFFF ∧ g.header.ty = ty.toNat)) :
+    ∃ s1 s2, nexec (apiNetWrite (val (tree b)) ty msg AUTO_ROUTING) s =
+        (.ok (true, callerFrame (tree a) (tree b) s.nextId ty msg), s1) ∧
+      nexec apiUpdate ((s1.ret).callAs b) = (.ok ty.toNat, s2) ∧
+      DeliveredOnce s.nodes s2.nodes b (val (tree a)) ty.toNat msg ∧
+      ∀ i, i < s.nodes.length → (s2.radioAt i).rxFifo = [] := by
+  obtain ⟨hxa, haddr_a, hcfg_a, _, _, hWa⟩ := hok.node a ha
+  obtain ⟨hyb, haddr_b, _, harr_b, hkind_b, hWb⟩ := hok.node b hb
+  obtain ⟨Pa, _, hNa⟩ := hok.radio a ha
+  obtain ⟨Pb, hPb, hNb⟩ := hok.radio b hb
+  have hxy : tree a ≠ tree b := (hok.inj a b ha hb hab).1
+  obtain ⟨hp1, hp5⟩ : 1 ≤ hopPipe (tree a) (tree b) ∧ hopPipe (tree a) (tree b) ≤ 5 := by
+    have := C04_listens cfg hcfg (tree a) (tree b) hxa hyb hxy TX_NORMAL (Or.inl rfl)
+    exact ⟨this.1, this.2.1⟩
+  exact C05_two_nodes_closed_partial cfg hcfg L s a b (tree a) (tree b) Pa Pb ty msg hxa hyb hadj hxy hcur hact hok.closed
+    ha hb hab hsize (fun i j hi hj hij => (hok.inj i j hi hj hij).2) hWa hWb hNa haddr_a hcfg_a hmax hlen hNb hPb hdup
+    haddr_b harr_b hkind_b hquiet
+    (fun r _ buf pid h1 h2 hA => hok.hothers hcfg hb hPb hp1 hp5 hA buf r pid h1 h2) hok.faults hty hroom hnew
+
+/-- non-vacuity, with a listening bystander: in the chain `0o0 — 0o1 — 0o11` of `NrfProofs/C05Example3.lean`
+    (three running nodes, every one listening) the grandchild `0o11` writes `[9, 8, 7]` with the acknowledged
+    user type 100 to its parent `0o1`; the master `0o0` listens all the while and gets nothing -/
+example : ∃ s1 s2,
+    nexec (apiNetWrite (val [1]) 100 [9, 8, 7] AUTO_ROUTING) Example.three =
+      (.ok (true, callerFrame [1, 1] [1] 6 100 [9, 8, 7]), s1) ∧
+    nexec apiUpdate ((s1.ret).callAs 1) = (.ok 100, s2) ∧
+    DeliveredOnce Example.three.nodes s2.nodes 1 (val [1, 1]) 100 [9, 8, 7] ∧
+    ∀ i, i < 3 → (s2.radioAt i).rxFifo = [] :=
+  C05_neighbours_closed_partial {} (by decide) Example.L Example.tree3 Example.three 2 1 100 [9, 8, 7]
+    Example.three_ok rfl rfl (by decide) (by decide) (by decide) (by decide) (by decide)
+    (NotDupFrame.of_none (by decide))
+    (by
+      intro i hi
+      have hi' : i < 3 := hi
+      have : i = 0 ∨ i = 1 ∨ i = 2 := by omega
+      rcases this with rfl | rfl | rfl <;> decide)
+    (by decide) (by decide) (by decide) (by decide) (by intro g hg; cases hg)
+
+/-- non-vacuity of the non-duplicate condition for a radio WITH a reception history: the parent's radio,
+    having accepted the previous message of the same origin (id 5) as its last packet, satisfies `NotDupFrame`
+    for the next one (id 6) — the two packed frames differ in the id byte -/
+example : NotDupFrame { (Example.three.radioAt 1) with
+      lastRx := some { pid := 1, addr := [], data := [9, 0, 1, 0, 5, 0, 100, 0, 9, 8, 7] } }
+    (wireCopy (callerFrame [1, 1] [1] 6 100 [9, 8, 7])) := by
+  intro l hl
+  have : l = { pid := 1, addr := [], data := [9, 0, 1, 0, 5, 0, 100, 0, 9, 8, 7] } := (Option.some.inj hl).symm
+  subst this
+  have h : (wireCopy (callerFrame [1, 1] [1] 6 100 [9, 8, 7])).pack = .ok [9, 0, 1, 0, 6, 0, 100, 0, 9, 8, 7] := rfl
+  rw [h]
+  intro e
+  have := Except.ok.inj e
+  revert this
+  decide
+
+/-- **Neighbours in a full network, fragmented message (25..144 bytes), user types 0..127** — the same
+    for `C05_two_nodes_frag_closed_partial`: `NetOk` network of any number of running nodes, fragmentation enabled at
+    both ends, the packet `b`'s radio accepted last not carrying the bytes of this message's FIRST fragment.
+    `write()` returns `True`, the next `update()` of `b` returns 150 (the last fragment's type), `b`'s queue
+    has gained exactly the reassembled message, no other queue changed, and afterwards every RX FIFO of
+    the network is empty (quiescence is exported as the last conjunct). -/
+theorem C05_neighbours_frag_closed_partial (cfg : AddrCfg) (hcfg : CfgOk cfg) (L : LinkCfg)
+    (tree : Nat → List Nat) (s : NetState) (a b : Nat) (ty : Int) (msg : Bytes)
+    (hok : NetOk cfg L tree s) (hcur : s.cur = a) (hact : s.active = [a])
+    (ha : a < s.nodes.length) (hb : b < s.nodes.length) (hab : a ≠ b) (hsize : s.nodes.length ≤ 90000)
+    (hadj : nextHopSpec (tree a) (tree b) = tree b)
+    (hfrag_a : (s.nodeAt a).fragEnabled = true) (hfrag_b : (s.nodeAt b).queue.frag = true)
+    (hdup : NotDupFrame (s.radioAt b) ⟨⟨val (tree a), val (tree b), s.nextId &&& 0xFFFF, .int MSG_FRAG_FIRST,
+      fragTotal msg.length⟩, msg.take MAX_FRAG_SIZE⟩)
+    (hquiet : ∀ i, i < s.nodes.length → (s.radioAt i).rxFifo = [])
+    (hty : 0 ≤ ty ∧ ty ≤ 127) (hlen : MAX_FRAG_SIZE < msg.length) (hlen144 : msg.length ≤ 144)
+    (hmax : msg.length ≤ (s.nodeAt a).maxMessageLength)
+    (hroom : ((s.nodeAt b).queue.frames.length : Int) < (s.nodeAt b).queue.maxSize)
+    (hnew : ∀ g ∈ (s.nodeAt b).queue.frames, ¬ (g.header.fromNode = val (tree a) ∧
+      g.header.frameId = s.nextId &&& 0xFFFF ∧ g.header.ty = ty.toNat)) :
+    ∃ s1 s2, nexec (apiNetWrite (val (tree b)) ty msg AUTO_ROUTING) s =
+        (.ok (true, callerFrame (tree a) (tree b) s.nextId ty msg), s1) ∧
+      nexec apiUpdate ((s1.ret).callAs b) = (.ok MSG_FRAG_LAST, s2) ∧
+      DeliveredOnce s.nodes s2.nodes b (val (tree a)) ty.toNat msg ∧
+      ∀ i, i < s.nodes.length → (s2.radioAt i).rxFifo = [] := by
+  obtain ⟨hxa, haddr_a, hcfg_a, _, _, hWa⟩ := hok.node a ha
+  obtain ⟨hyb, haddr_b, _, harr_b, hkind_b, hWb⟩ := hok.node b hb
+  obtain ⟨Pa, _, hNa⟩ := hok.radio a ha
+  obtain ⟨Pb, hPb, hNb⟩ := hok.radio b hb
+  have hxy : tree a ≠ tree b := (hok.inj a b ha hb hab).1
+  obtain ⟨hp1, hp5⟩ : 1 ≤ hopPipe (tree a) (tree b) ∧ hopPipe (tree a) (tree b) ≤ 5 := by
+    have := C04_listens cfg hcfg (tree a) (tree b) hxa hyb hxy TX_NORMAL (Or.inl rfl)
+    exact ⟨this.1, this.2.1⟩
+  exact C05_two_nodes_frag_closed_partial cfg hcfg L s a b (tree a) (tree b) Pa Pb ty msg hxa hyb hadj hxy hcur hact
+    hok.closed ha hb hab hsize (fun i j hi hj hij => (hok.inj i j hi hj hij).2) hWa hWb hNa haddr_a hcfg_a hfrag_a
+    hmax hlen hlen144 hNb hPb hdup haddr_b harr_b hkind_b hfrag_b hquiet
+    (fun r _ buf pid h1 h2 hA => hok.hothers hcfg hb hPb hp1 hp5 hA buf r pid h1 h2) hok.faults hty hroom hnew
+
+/-- non-vacuity, with a listening bystander: the chain `0o0 — 0o1 — 0o11`, the grandchild writing 60 bytes
+    with type 100 to its parent while the master listens -/
+example : ∃ s1 s2,
+    nexec (apiNetWrite (val [1]) 100 (List.range 60) AUTO_ROUTING) Example.three =
+      (.ok (true, callerFrame [1, 1] [1] 6 100 (List.range 60)), s1) ∧
+    nexec apiUpdate ((s1.ret).callAs 1) = (.ok 150, s2) ∧
+    DeliveredOnce Example.three.nodes s2.nodes 1 (val [1, 1]) 100 (List.range 60) ∧
+    ∀ i, i < 3 → (s2.radioAt i).rxFifo = [] :=
+  C05_neighbours_frag_closed_partial {} (by decide) Example.L Example.tree3 Example.three 2 1 100 (List.range 60)
+    Example.three_ok rfl rfl (by decide) (by decide) (by decide) (by decide) (by decide)
+    (by decide) (by decide)
+    (NotDupFrame.of_none (by decide))
+    (by
+      intro i hi
+      have hi' : i < 3 := hi
+      have : i = 0 ∨ i = 1 ∨ i = 2 := by omega
+      rcases this with rfl | rfl | rfl <;> decide)
+    (by decide) (by decide) (by decide) (by decide) (by decide) (by intro g hg; cases hg)
+
 /-! ## routes, acknowledged types (65..191)
 
 Point (2) left open at `C05_route_partial`: a single-frame message of a type that asks for a NETWORK_ACK,
 over a tree route with at least one router.  Delivery then happens *inside* `write()`: the whole route
 runs, nested, in the first `read()` of the origin's wait loop, and the NETWORK_ACK comes back the same way
-(NrfProofs/C13Hops*.lean; the liveness statement proper is `C13_live_closed` in NrfProps/C13.lean). -/
+(NrfProofs/C13Hops*.lean; the liveness statement proper is `C13_live_route_closed_partial` in NrfProps/C13.lean). -/
 
 /-- **A single-frame message of a type with NETWORK_ACK (the user types 65..127; also the system types
     129, 132..147, 151..191 when the destination has `ret_sys_msg = False`) over any tree route of two or more
     hops** — closed system with the schedule of `runOthers`, loss-free, driver contracts discharged
     (`l3contracts`).  `NetOk` network, nobody has address `0o4444`, all RX FIFOs empty, every node of the
-    tree route from the caller `a` to `d` present and not having received anything yet, the destination's
-    queue accepting the frame.  Then `write()` returns `True` and, when it returns, **the destination's
+    tree route from the caller `a` to `d` present; the packet accepted last by the radio of each router and of
+    the destination (if any — they need not be fresh) does not carry this frame's bytes, and the one accepted
+    last by the origin's radio does not carry the bytes of this frame's NETWORK_ACK (`NotDupFrame`; `ackOf`
+    = the frame with type 193 and `to := from`); the destination's queue accepting the frame.  Then `write()` returns `True` and, when it returns, **the destination's
     queue has gained exactly that message (origin, type, bytes) and every other node's queue is
-    unchanged** (`DeliveredOnce`) — no further `update()` call is needed — for routes of any length
-    (C04: at most 8 hops).  One-hop routes of these types are `C05_two_nodes_closed` (no NETWORK_ACK between
-    neighbours).
+    unchanged** (`DeliveredOnce`) — no further `update()` call is needed — and every RX FIFO is empty (the
+    acknowledgement was consumed, no second copy waits anywhere), for routes of any length
+    (C04: at most 8 hops).  One-hop routes of the user types 65..127 in a full network are
+    `C05_neighbours_closed_partial` (no NETWORK_ACK between neighbours); one-hop routes of the system types
+    128..191: no theorem.
 
     `_partial` with respect to the full C05 statement for the same reasons as `C05_route_partial`:
-    schedules other than `runOthers`, fragmented messages, radios that received frames before. -/
+    schedules other than `runOthers`, fragmented messages; the six system types 128, 130, 131, 148..150 and
+    destinations with `ret_sys_msg = True` are excluded. -/
 theorem C05_route_ack_closed_partial (cfg : AddrCfg) (hcfg : CfgOk cfg) (L : LinkCfg)
     (tree : Nat → List Nat) (s : NetState) (a : Nat) (d : List Nat) (ty : Int) (msg : Bytes)
     (hok : NetOk cfg L tree s) (hcur : s.cur = a) (hact : s.active = [a]) (ha : a < s.nodes.length)
     (hsize : s.nodes.length ≤ 20000) (hndef : ∀ i, val (tree i) ≠ NETWORK_DEFAULT_ADDR)
     (h2 : 2 ≤ dist (tree a) d)
-    (hroute : ∀ k, k ≤ dist (tree a) d →
-      ∃ j, j < s.nodes.length ∧ tree j = hops k (tree a) d ∧ (s.radioAt j).lastRx = none)
+    (hroute : ∀ k, 1 ≤ k → k ≤ dist (tree a) d →
+      ∃ j, j < s.nodes.length ∧ tree j = hops k (tree a) d ∧
+        NotDupFrame (s.radioAt j) (wireCopy (callerFrame (tree a) d s.nextId ty msg)))
+    (horig : NotDupFrame (s.radioAt a) (ackOf (wireCopy (callerFrame (tree a) d s.nextId ty msg))))
     (hquiet : ∀ i, i < s.nodes.length → (s.radioAt i).rxFifo = [])
     (hty : 65 ≤ ty ∧ ty ≤ 191)
     (hsys : ty ≤ 127 ∨ ((∀ j, j < s.nodes.length → tree j = d → (s.nodeAt j).retSysMsg = false) ∧
@@ -1180,7 +1442,8 @@ theorem C05_route_ack_closed_partial (cfg : AddrCfg) (hcfg : CfgOk cfg) (L : Lin
     ∃ s1 jd, jd < s.nodes.length ∧ tree jd = d ∧
       nexec (apiNetWrite (val d) ty msg AUTO_ROUTING) s =
         (.ok (true, callerFrame (tree a) d s.nextId ty msg), s1) ∧
-      DeliveredOnce s.nodes s1.nodes jd (val (tree a)) ty.toNat msg := by
+      DeliveredOnce s.nodes s1.nodes jd (val (tree a)) ty.toNat msg ∧
+      ∀ i, i < s.nodes.length → (s1.radioAt i).rxFifo = [] := by
   have hsys' : ∀ j, j < s.nodes.length → tree j = d → Hops.SysOk ty.toNat (s.nodeAt j).retSysMsg := by
     intro j hj htj
     unfold Hops.SysOk MAX_USR_DEF_MSG_TYPE
@@ -1189,7 +1452,7 @@ theorem C05_route_ack_closed_partial (cfg : AddrCfg) (hcfg : CfgOk cfg) (L : Lin
       omega
     · refine ⟨Or.inr (h1 j hj htj), ?_⟩
       omega
-  exact Hops.live_route l3contracts cfg hcfg L tree s a d ty msg hok hcur hact ha hsize hndef h2 hroute hquiet hty hsys'
+  exact Hops.live_route l3contracts cfg hcfg L tree s a d ty msg hok hcur hact ha hsize hndef h2 hroute horig hquiet hty hsys'
     hlen hmax hacc
 
 /-- non-vacuity: the chain `0o0 — 0o1 — 0o11 — 0o111` of `NrfProofs/C13HopsExample.lean`, the great-grandchild
@@ -1197,19 +1460,20 @@ theorem C05_route_ack_closed_partial (cfg : AddrCfg) (hcfg : CfgOk cfg) (L : Lin
 example : ∃ s1 jd, jd < 4 ∧ Example.Hops.tree4 jd = [] ∧
     nexec (apiNetWrite (val []) 100 [9, 8, 7] AUTO_ROUTING) Example.Hops.four =
       (.ok (true, callerFrame [1, 1, 1] [] 8 100 [9, 8, 7]), s1) ∧
-    DeliveredOnce Example.Hops.four.nodes s1.nodes jd (val [1, 1, 1]) 100 [9, 8, 7] :=
+    DeliveredOnce Example.Hops.four.nodes s1.nodes jd (val [1, 1, 1]) 100 [9, 8, 7] ∧
+    ∀ i, i < 4 → (s1.radioAt i).rxFifo = [] :=
   C05_route_ack_closed_partial {} (by decide) Example.L Example.Hops.tree4 Example.Hops.four 3 [] 100 [9, 8, 7]
     Example.Hops.four_ok rfl rfl (by decide) (by decide) Example.Hops.four_ndef (by decide)
     (by
-      intro k hk
+      intro k hk1 hk
       have hd : dist (Example.Hops.tree4 3) [] = 3 := by decide
       rw [hd] at hk
-      have : k = 0 ∨ k = 1 ∨ k = 2 ∨ k = 3 := by omega
-      rcases this with rfl | rfl | rfl | rfl
-      · exact ⟨3, by decide, by decide, by decide⟩
-      · exact ⟨2, by decide, by decide, by decide⟩
-      · exact ⟨1, by decide, by decide, by decide⟩
-      · exact ⟨0, by decide, by decide, by decide⟩)
+      have : k = 1 ∨ k = 2 ∨ k = 3 := by omega
+      rcases this with rfl | rfl | rfl
+      · exact ⟨2, by decide, by decide, NotDupFrame.of_none (by decide)⟩
+      · exact ⟨1, by decide, by decide, NotDupFrame.of_none (by decide)⟩
+      · exact ⟨0, by decide, by decide, NotDupFrame.of_none (by decide)⟩)
+    (NotDupFrame.of_none (by decide))
     (by
       intro i hi
       rcases Example.Hops.four_lt i hi with rfl | rfl | rfl | rfl <;> decide)
